@@ -465,3 +465,40 @@ def _function_edges(repo, ob, failure):
             m = _re.search(r"\[([^\]]*)\]</text>", r["out"])
             return {"input": doc, "observed": m.group(1) if m else r["out"][-200:], "expected": want[c]}
     return None
+
+
+def _f32_expr(bs):
+    """an svgdx expression evaluating to the f32 with these little-endian bytes"""
+    import struct
+    import math
+    v = struct.unpack("<f", bytes(bs))[0]
+    if math.isnan(v):
+        return "sqrt(0 - 1)"
+    if math.isinf(v):
+        return "exp(1000)" if v > 0 else "(0 - exp(1000))"
+    s = repr(abs(v)) if abs(v) >= 1e-4 and abs(v) < 1e16 else "%.60f" % abs(v) if abs(v) < 1 else "%d" % abs(v)
+    return s if v >= 0 and not (v == 0 and math.copysign(1, v) < 0) else "(0 - %s)" % s
+
+
+KANI_CALLS = {"clamp_total": ("clamp(%s, %s, %s)", 3), "clamp_value": ("clamp(%s, %s, %s)", 3), "sign_table": ("sign(%s)", 1), "mix_ends": ("mix(%s, %s, %s)", 3)}
+
+
+@generator("C01.fn.")
+@generator("C14.fn.")
+def _kani_counterexample(repo, ob, failure):
+    """replay Kani's concrete counterexample (the f32 arguments) against the real binary"""
+    cex = failure.get("counterexample")
+    h = ob["id"].split("::")[-1]
+    if not cex or h not in KANI_CALLS:
+        return None
+    tmpl, n = KANI_CALLS[h]
+    floats = [c["bytes"] for c in cex if len(c["bytes"]) == 4][:n]
+    if len(floats) < n:
+        return None
+    call = tmpl % tuple(_f32_expr(b) for b in floats)
+    doc = '<svg><text xy="1" text="[{{%s}}]"/></svg>' % call
+    r = run_svgdx(repo, doc)
+    if r["timeout"] or r["rc"] not in (0, 1, 2) or "panicked" in r["err"]:
+        return {"input": doc, "kani_values": [c["repr"] for c in cex], "expected": "a value or an error, never a panic",
+                "observed": "exit %s: %s" % (r["rc"], " ".join(l.strip() for l in r["err"].split("\n") if "panicked" in l or "min > max" in l)[:300])}
+    return None
